@@ -10,10 +10,11 @@
 
 int main() {
   TimeLine *tl = nullptr;
+  TimeLine *twin = nullptr; // the never-restored object, advanced in lock step after a restore
   std::string line;
   uint64_t lineno = 0;
   double endt = 0., startt = 0., interval = 0., maxphys = 0., sum_actual = 0., last_current = 0.;
-  bool finished = false, stopped = false;
+  bool finished = false, stopped = false, twin_differs = false;
   while (std::getline(std::cin, line)) {
     ++lineno;
     auto w = words(line);
@@ -23,6 +24,9 @@ int main() {
     }
     if (w[0] == "new" && w.size() == 5) {
       delete tl;
+      delete twin;
+      twin = nullptr;
+      twin_differs = false;
       tl = new TimeLine(dbl(w[1]), dbl(w[2]), dbl(w[3]), dbl(w[4]));
       endt = dbl(w[2]);
       startt = dbl(w[1]);
@@ -41,6 +45,13 @@ int main() {
       const uint64_t before = tl->_current_time;
       double actual = -1., current = -1.;
       const bool ret = tl->advance(req, actual, current);
+      if (twin != nullptr) {
+        double tactual = -1., tcurrent = -1.;
+        const bool tret = twin->advance(req, tactual, tcurrent);
+        if (tret != ret || bits_of(tactual) != bits_of(actual) || bits_of(tcurrent) != bits_of(current) ||
+            twin->_current_time != tl->_current_time)
+          twin_differs = true;
+      }
       const uint64_t after = tl->_current_time;
       if (!ret) stopped = true;
       std::cout << "adv " << (ret ? 1 : 0) << " " << showF(actual) << " "
@@ -49,6 +60,12 @@ int main() {
       // ---- property oracle on the implementation (integer clock) ----
       const uint64_t END = TIMELINE_MAX_INTEGER_TIMELINE_SIZE;
       std::ostringstream bad;
+      if (twin_differs) {
+        bad << " restored-time-line-continues-differently";
+        twin_differs = false;
+        delete twin;
+        twin = nullptr;
+      }
       if (after != before) {
         const uint64_t step = after - before;
         if (after < before) bad << " clock-went-back";
@@ -106,6 +123,10 @@ int main() {
       {
         RestartReader rr(name);
         tl = new TimeLine(rr);
+      }
+      // keep a never-restored twin: a restored time line must continue identically
+      if (twin == nullptr) {
+        twin = new TimeLine(*old);
       }
       unlink(name);
       std::cout << "rst " << tl->_minimum_timestep << " " << tl->_maximum_timestep
